@@ -32,6 +32,7 @@ from .paths import U
 
 SRC = 'SRC'
 URI = 'URI'      # additionally: the value was read from (or computed from) a URI-valued field
+DECODED = 'DECODED'     # additionally: the value went through percent-decoding - an escaped '@' of the password is a literal one now and the masks, which end at the first '@', leave the rest of it in clear; nothing re-attached later makes it maskable again
 NOSCHEME = 'NOSCHEME'   # additionally: the value was cut - a constant-length prefix sliced off (`uri[7:]`: the `scheme://` the masking regexes anchor on is gone) or clipped at the tail
                         # (`s[:256]`: the `@host` they need after `user:pwd` may be gone); a sanitizer can no longer mask this value
 EMPTY = frozenset()
@@ -676,7 +677,7 @@ class _Analysis:
 
     def _concrete(self, labels):
         """labels with parameter placeholders dropped unless seeded (used for class attribute table)"""
-        return frozenset(l for l in labels if l in (SRC, URI, NOSCHEME))
+        return frozenset(l for l in labels if l in (SRC, URI, NOSCHEME, DECODED))
 
     # ............................................................................................. expressions
 
@@ -913,12 +914,15 @@ class _Analysis:
         allargs = frozenset().union(*args, *kwargs.values()) if (args or kwargs) else EMPTY
         fname = f.id if isinstance(f, ast.Name) else f.attr if isinstance(f, ast.Attribute) else ''
         # sanitizers
+        if fname in ('unquote', 'unquote_plus', 'unquote_to_bytes', 'url2pathname') and allargs:
+            return allargs | frozenset([DECODED])
         if fname in SANITIZERS:
-            if NOSCHEME in allargs:
+            if NOSCHEME in allargs or DECODED in allargs:
                 return allargs      # masking a URI whose scheme was already cut off is a no-op: still tainted (placeholders stay unsanitised)
             # a sanitised parameter is clean unless the caller passes a value whose scheme was cut off: ('S', p) is resolved
             # at the call site (tainted iff the actual carries SRC and NOSCHEME)
-            return frozenset(('S', l[1]) for l in allargs if isinstance(l, tuple) and l[0] in ('P', 'S'))
+            # ('D', p): parameter p, re-prefixed with a scheme and then sanitised: clean unless the actual was percent-decoded before (resolved at call sites)
+            return frozenset(('S', l[1]) for l in allargs if isinstance(l, tuple) and l[0] in ('P', 'S')) | frozenset(('D', l[1]) for l in allargs if isinstance(l, tuple) and l[0] in ('Q', 'D'))
         # sinks
         self._check_sink(node, fname, f, args, kwargs, env)
         # once(logger.warning, msg, ...)
@@ -1024,16 +1028,22 @@ class _Analysis:
     def _subst(self, labels, bound):
         out = set()
         for l in labels:
-            if l in (SRC, URI, NOSCHEME):
+            if l in (SRC, URI, NOSCHEME, DECODED):
                 out.add(l)
             elif isinstance(l, tuple) and l[0] == 'P':
                 out |= bound.get(l[1], EMPTY)
             elif isinstance(l, tuple) and l[0] == 'Q':
                 out |= frozenset(('Q', x[1]) if isinstance(x, tuple) and x[0] == 'P' else x for x in bound.get(l[1], EMPTY)) - frozenset([NOSCHEME])
+            elif isinstance(l, tuple) and l[0] == 'D':
+                b = bound.get(l[1], EMPTY)
+                if DECODED in b:
+                    out |= b - frozenset([NOSCHEME])
+                else:
+                    out |= frozenset(('D', x[1]) for x in b if isinstance(x, tuple) and x[0] in ('P', 'Q', 'D'))
             elif isinstance(l, tuple) and l[0] == 'S':
                 b = bound.get(l[1], EMPTY)
-                if NOSCHEME in b:
-                    out |= b        # the sanitizer saw a value without its scheme: a no-op
+                if NOSCHEME in b or DECODED in b:
+                    out |= b        # the sanitizer saw a value without its scheme (or percent-decoded): a no-op
                 else:
                     out |= frozenset(('S', x[1]) for x in b if isinstance(x, tuple) and x[0] in ('P', 'S'))
         return frozenset(out)
